@@ -23,6 +23,7 @@
 package c20
 
 import (
+	"encoding/json"
 	"fmt"
 	"os"
 	"runtime"
@@ -182,11 +183,20 @@ func (h *hlog) violation() string {
 	return h.viol
 }
 
+// boundedWait is how long a worker may stay blocked although nothing should block it.
 func boundedWait() time.Duration {
 	if pbt.Tier() == "thorough" {
 		return 30 * time.Second
 	}
-	return 10 * time.Second
+	return 5 * time.Second
+}
+
+// grace lets goroutines that are expected to block inside Acquire reach the mutex they
+// will wait on before the harness takes its next step (their progress cannot be observed).
+func grace() {
+	for i := 0; i < 12; i++ {
+		runtime.Gosched()
+	}
 }
 
 // ---- sched mode
@@ -333,6 +343,12 @@ func (s *schedRun) settle() {
 		case maybe:
 			wait = time.Until(soft)
 		default:
+			for _, w := range s.ws {
+				if w.state == stPending {
+					grace()
+					break
+				}
+			}
 			return
 		}
 		if wait <= 0 {
@@ -534,7 +550,7 @@ func classify(c Case, r *pbt.Rec) {
 			all = append(all, flat{wi, rq.Keys})
 			seen := map[[2]int]bool{}
 			classes := map[int]int{}
-			nonEmpty, empty := 0, 0
+			nonEmpty, empty, dup := 0, 0, false
 			for _, k := range rq.Keys {
 				if k.Empty {
 					empty++
@@ -543,7 +559,7 @@ func classify(c Case, r *pbt.Rec) {
 				nonEmpty++
 				id := [2]int{k.Class, k.Var}
 				if seen[id] {
-					r.Label("request-with-duplicate-key")
+					dup = true
 				} else {
 					classes[k.Class%S]++
 				}
@@ -554,6 +570,9 @@ func classify(c Case, r *pbt.Rec) {
 					r.Label("request-with-colliding-keys")
 					break
 				}
+			}
+			if dup {
+				r.Label("request-with-duplicate-key")
 			}
 			if empty > 0 {
 				r.Label("request-with-empty-key")
@@ -639,6 +658,9 @@ func run(c Case, r *pbt.Rec) error {
 		return nil
 	}
 	classify(c, r)
+	if isHand(c) {
+		r.Label("hand-written-schedule")
+	}
 	once := func() (*pbt.Fail, bool) {
 		if c.Rounds > 0 {
 			return runFree(c, r)
@@ -647,16 +669,20 @@ func run(c Case, r *pbt.Rec) error {
 	}
 	f, to := once()
 	if to {
+		// A bounded wait expired.  One timeout alone is not a verdict: execute the same case
+		// again (fresh manager, up to 20 times) and report only a second timeout.
 		r.Label("timeout")
-		f2, to2 := once()
-		if to2 {
-			return pbt.Failf("stuck", "workers did not finish within %v in two consecutive executions of the case (deadlock or lost wake-up)", boundedWait())
+		for i := 0; i < 20; i++ {
+			f2, to2 := once()
+			if to2 {
+				return pbt.Failf("stuck", "workers did not finish within %v in two executions of the case (%d re-runs): deadlock or lost wake-up", boundedWait(), i+1)
+			}
+			if f2 != nil {
+				return f2
+			}
 		}
-		if f2 != nil {
-			return f2
-		}
-		fmt.Fprintln(os.Stderr, "c20: a bounded wait expired once and the case finished when re-run: inconclusive")
-		return pbt.Failf("harness", "bounded wait of %v expired once, not reproduced on the second execution (inconclusive)", boundedWait())
+		fmt.Fprintln(os.Stderr, "c20: a bounded wait expired once and 20 re-runs of the case finished: inconclusive")
+		return pbt.Failf("harness", "bounded wait of %v expired once, not reproduced in 20 re-runs (inconclusive)", boundedWait())
 	}
 	if f != nil {
 		return f
@@ -707,7 +733,15 @@ func genWorkers(t *rapid.T, S int, free bool) [][]Request {
 
 var stripeChoices = []int{1, 2, 7, 3, 0, -5, 64}
 
+// The hand-written schedules are mixed into the generated stream (about 1 case in 16)
+// instead of being run by the parent process: a double unlock of a sync.Mutex is a fatal
+// error that cannot be recovered, and only the sharded search survives a dying worker
+// process and reports the case that killed it.
 func genSched(t *rapid.T) Case {
+	if rapid.IntRange(0, 15).Draw(t, "hand") == 0 {
+		h := staticSched()
+		return h[rapid.IntRange(0, len(h)-1).Draw(t, "handidx")]
+	}
 	c := Case{Stripes: rapid.SampledFrom(stripeChoices).Draw(t, "stripes")}
 	c.Workers = genWorkers(t, effStripes(c.Stripes), false)
 	total := 0
@@ -726,13 +760,17 @@ func genSched(t *rapid.T) Case {
 }
 
 func genFree(t *rapid.T) Case {
+	if rapid.IntRange(0, 15).Draw(t, "hand") == 0 {
+		h := staticFree()
+		return h[rapid.IntRange(0, len(h)-1).Draw(t, "handidx")]
+	}
 	c := Case{Stripes: rapid.SampledFrom(stripeChoices).Draw(t, "stripes")}
 	c.Workers = genWorkers(t, effStripes(c.Stripes), true)
 	c.Rounds = rapid.IntRange(1, 40).Draw(t, "rounds")
 	return c
 }
 
-// ---- hand-written schedules (run before the search in every tier)
+// ---- hand-written schedules (drawn by the generators, see genSched)
 
 func k(class, v int) KeySpec { return KeySpec{Class: class, Var: v} }
 
@@ -790,13 +828,30 @@ func staticFree() []Case {
 	return out
 }
 
+func isHand(c Case) bool {
+	js, _ := json.Marshal(c)
+	handOnce.Do(func() {
+		for _, h := range append(staticSched(), staticFree()...) {
+			b, _ := json.Marshal(h)
+			handSet[string(b)] = true
+		}
+	})
+	return handSet[string(js)]
+}
+
+var (
+	handOnce sync.Once
+	handSet  = map[string]bool{}
+)
+
 func TestCheck(t *testing.T) {
 	s := &pbt.Suite{ID: "C20", Level: "exploration",
 		Rule: "Cases store key ROLES (stripe class, variant, empty); concrete bytes with the wanted stripe are found by search over kv.MemHash at run time. " +
 			"gen: stripes from {1,2,3,7,64,default 256 (0 and negative)}, 2-6 workers with 1-3 requests of 0-5 keys drawn from a 1-5 key universe (duplicates, empty keys, different keys colliding on one stripe), Release once or twice. " +
+			"About 1 case in 16 is one of the hand-written schedules (crossing key orders behind two holders, duplicate/colliding/empty keys in one request, late second Release with a third waiter, requests locking nothing). " +
 			"spec sched: a drawn step list decides who calls Acquire / Release / a late second Release next (Acquire in a goroutine, the harness waits until it returned or is known to wait), then drains. " +
 			"spec free: the workers run their lists for 1-40 rounds on real threads behind a start barrier, optionally re-releasing the previous guard while holding the next. " +
-			"Oracle: logged critical sections (enter after Acquire returned, exit before Release) of different workers sharing a non-empty key never overlap; every worker finishes within a bounded wait (10 s quick / 30 s thorough; a timeout counts only when a second execution of the same case times out as well); no panic. " +
+			"Oracle: logged critical sections (enter after Acquire returned, exit before Release) of different workers sharing a non-empty key never overlap; every worker finishes within a bounded wait (5 s quick / 30 s thorough; a timeout counts only when one of up to 20 further executions of the same case times out as well); no panic. " +
 			"Non-trivial = two requests of different workers share two keys lying on different stripes and list them in opposite order (the shape that deadlocks without ordered stripe locking); distinct by case content.",
 		Assumptions: []string{
 			"empty keys are skipped by the latch by design and no caller passes them as lockable keys: exclusion is asserted on non-empty keys only",
@@ -804,7 +859,7 @@ func TestCheck(t *testing.T) {
 			"real thread schedules: the free spec and the waiting points of the sched spec depend on the Go scheduler; a logged overlap is a definite violation, absence of one is evidence for the schedules that happened",
 		},
 	}
-	pbt.Add(s, &pbt.Spec[Case]{Name: "sched", Gen: genSched, Run: run, Static: staticSched, Quick: 6000, Thorough: 300000, Shards: 6, Nondet: true})
-	pbt.Add(s, &pbt.Spec[Case]{Name: "free", Gen: genFree, Run: run, Static: staticFree, Quick: 3000, Thorough: 150000, Shards: 6, Nondet: true})
+	pbt.Add(s, &pbt.Spec[Case]{Name: "sched", Gen: genSched, Run: run, Quick: 40000, Thorough: 1500000, Shards: 6, Nondet: true})
+	pbt.Add(s, &pbt.Spec[Case]{Name: "free", Gen: genFree, Run: run, Quick: 20000, Thorough: 600000, Shards: 6, Nondet: true})
 	s.Main(t)
 }
